@@ -260,12 +260,20 @@ Section Merge.
   Definition mg_bcast (u : umsg) (j : nat) (s : mg_st) : mg_st * list obs * act mg_fr :=
     if negb (umsg_is_term u) && mg_ended s then (s, [], ARet) else    (* :131-133 *)
     match find_from (mg_tbs s) j (n - j) with
-    | Some j' => (s, [], ACall (CUp j' u) (MgBcast u (S j')))
+    | Some j' =>
+        (* an ending message takes the talkback out of its cell (swap), a Pull reads it *)
+        let s' := if umsg_is_term u
+                  then {| mg_tbs := upd (mg_tbs s) j' false; mg_start := mg_start s;
+                          mg_end := mg_end s; mg_ended := mg_ended s |}
+                  else s in
+        (s', [], ACall (CUp j' u) (MgBcast u (S j')))
     | None => (s, [], ARet)
     end.
   Definition mg_errloop (i e j : nat) (s : mg_st) : mg_st * list obs * act mg_fr :=
     match find_from (fun x => negb (Nat.eqb x i) && mg_tbs s x) j (n - j) with
-    | Some j' => (s, [], ACall (CUp j' UT) (MgErrLoop i e (S j')))
+    | Some j' =>
+        ({| mg_tbs := upd (mg_tbs s) j' false; mg_start := mg_start s; mg_end := mg_end s;
+            mg_ended := mg_ended s |}, [], ACall (CUp j' UT) (MgErrLoop i e (S j')))
     | None => (s, [], ACall (CDn 0 (DE e)) MgDone)                    (* :211 *)
     end.
   Definition mg_handle (i : input) (s : mg_st) : mg_st * list obs * act mg_fr :=
